@@ -259,13 +259,14 @@ def o6(h, st):
 @contract("C12", "O8.ansatz_conservation", level="B",
           structures=lambda tier: [{"cls": c, "mol": m, "opts": o} for c, m, o in (("UCCSD", "H2", {"mapping": "jw"}), ("UCCSD", "H4+", {"mapping": "jw"}), ("UpCCGSD", "H2", {"mapping": "jw", "k": 2}),
                                                                                   ("UCCGD", "H2", {"mapping": "jw"}), ("UCCSD", "H2", {"mapping": "jw", "up_then_down": True}), ("UpCCGSD", "H2", {"mapping": "jw", "k": 1}),
-                                                                                  ("ADAPTAnsatz", "H2", {"mapping": "jw"}), ("UCCSD", "H4", {"mapping": "jw"}))][: 7 if tier == "quick" else 8],
+                                                                                  ("ADAPTAnsatz", "H2", {"mapping": "jw"}), ("UpCCGSD", "H4+", {"mapping": "jw", "k": 2}), ("UpCCGSD", "H4", {"mapping": "jw", "k": 3}), ("UCCSD", "H4", {"mapping": "jw"}))][: 8 if tier == "quick" else 10],
           native_samples=lambda st, rnd, tier: [{"seed": rnd.randint(0, 10 ** 6)} for _ in range(3 if tier == "quick" else 10)],
           targets=[("tangelo/toolboxes/ansatz_generator/uccsd.py", "UCCSD.build_circuit"), ("tangelo/toolboxes/ansatz_generator/upccgsd.py", "UpCCGSD.build_circuit"),
                    ("tangelo/toolboxes/ansatz_generator/uccgd.py", "UCCGD.build_circuit")])
 def o8(h, st):
     """bounded: under Jordan-Wigner the states prepared by UCCSD / UpCCGSD / UCCGD / UCC3 / ADAPT carry exactly the reference particle number and spin projection for
-    random parameter vectors (|<N> - N_ref| < 1e-9 and zero variance)"""
+    random parameter vectors (|<N> - N_ref| < 1e-9 and zero variance) - in the freshly built circuit and in the circuits produced by update_var_params along histories
+    with exact zeros (same zero pattern twice, then a full vector)"""
     import random
     import numpy as np
     from contracts.C07 import make_ansatz, FILES, n_params, molecule
@@ -284,25 +285,46 @@ def o8(h, st):
     w = h.getattr(a.circuit, "width")
     utd = bool((st["opts"] or {}).get("up_then_down", False))
     n_orbs = w // 2
-    U = qsem.to_numpy(qsem.unitary(a.circuit._gates, w, exact=False)[0], w)
-    psi = U[:, 0]
-    ref = h.call(FILES[cls], f"{cls}.prepare_reference_state", a) if cls != "RUCC" else None
-    if ref is None:
-        from tangelo.linq import Circuit, Gate
-        ref = Circuit([Gate("X", 0), Gate("X", 1)] if False else [], n_qubits=w)
+    ref = h.call(FILES[cls], f"{cls}.prepare_reference_state", a)
     R = qsem.to_numpy(qsem.unitary(ref._gates, w, exact=False)[0], w)
     phi = R[:, 0]
+    mats = {}
     for name, fn in (("N", "number_operator"), ("Sz", "spinz_operator")):
         op = h.call(FO, fn, n_orbs, utd)
-        q = fermion_to_qubit_mapping(op, "jw", w, None, False)
-        M = qubit_matrix(q, w)
-        val = float(np.real(psi.conj() @ M @ psi))
-        var = float(np.real(psi.conj() @ M @ M @ psi)) - val ** 2
-        vref = float(np.real(phi.conj() @ M @ phi))
-        if cls == "RUCC":
-            vref = val if abs(val - round(2 * val) / 2) < 1e-9 else float("nan")
-        h.check(f"<{name}> equals the reference value", abs(val - vref) < 1e-9, detail=f"{val} vs {vref}")
-        h.check(f"{name} has zero variance (the state stays in the sector)", abs(var) < 1e-8, detail=f"variance {var}")
+        mats[name] = qubit_matrix(fermion_to_qubit_mapping(op, "jw", w, None, False), w)
+
+    from tangelo.linq import get_backend
+    sim = get_backend("cirq")
+
+    def conserved(tag):
+        # state of the ansatz circuit: cirq statevector simulation (assumed, see C01; same index convention as qsem - checked once below)
+        _, psi = sim.simulate(a.circuit, return_statevector=True)
+        psi = np.asarray(psi)
+        for name, M in mats.items():
+            val = float(np.real(psi.conj() @ M @ psi))
+            var = float(np.real(psi.conj() @ M @ M @ psi)) - val ** 2
+            vref = float(np.real(phi.conj() @ M @ phi))
+            h.check(f"{tag}<{name}> equals the reference value", abs(val - vref) < 1e-9, detail=f"{val} vs {vref}")
+            h.check(f"{tag}{name} has zero variance (the state stays in the sector)", abs(var) < 1e-8, detail=f"variance {var}")
+
+    conserved("")
+    if w <= 4:
+        _, psi_c = sim.simulate(a.circuit, return_statevector=True)
+        psi_q = qsem.to_numpy(qsem.unitary(a.circuit._gates, w, exact=False)[0], w)[:, 0]
+        h.check("cirq statevector == independent gate-by-gate evaluation", float(np.max(np.abs(np.asarray(psi_c) - psi_q))) < 1e-9)
+    if cls != "ADAPTAnsatz":
+        # the circuits the solvers actually run are produced by update_var_params: parameter vectors with exact zeros (words dropped from some excitations only), the same
+        # zero pattern twice (in-place update), then a full vector
+        for pat, idx in (("zeros in the last third", range(n - max(1, n // 3), n)), ("zeros in the first third", range(0, max(1, n // 3)))):
+            th2 = [0.0 if i in idx else rnd.uniform(-2, 2) for i in range(n)]
+            th3 = [0.0 if i in idx else rnd.uniform(-2, 2) for i in range(n)]
+            th4 = [rnd.uniform(-2, 2) for _ in range(n)]
+            h.call(FILES[cls], f"{cls}.build_circuit", a, th2)
+            conserved(f"built with {pat}: ")
+            h.call(FILES[cls], f"{cls}.update_var_params", a, np.array(th3))
+            conserved(f"updated with the same {pat}: ")
+            h.call(FILES[cls], f"{cls}.update_var_params", a, np.array(th4))
+            conserved(f"updated with a full vector after {pat}: ")
     h.done()
 
 
